@@ -248,9 +248,16 @@ func portfolioOpt(file string, timeoutS int, all bool, seqFirst bool) solveOut {
 
 var fileSafe = regexp.MustCompile(`[^A-Za-z0-9_.#@-]`)
 
+// maxFailPerFunc: once this many obligations of one function have failed, its remaining obligations
+// are not attempted (they are reported as skipped and count as failed): a broken function otherwise
+// costs a full timeout for each of its hundreds of obligations.
+const maxFailPerFunc = 6
+
 func dischargeAll(obls []*Obl, dir string, timeoutS int, all bool, workers int) {
 	os.MkdirAll(dir, 0o755)
 	var wg sync.WaitGroup
+	var mu sync.Mutex
+	fails := map[string]int{}
 	sem := make(chan struct{}, workers)
 	for _, o := range obls {
 		o := o
@@ -259,7 +266,26 @@ func dischargeAll(obls []*Obl, dir string, timeoutS int, all bool, workers int) 
 		go func() {
 			defer wg.Done()
 			defer func() { <-sem }()
-			dischargeOne(o, dir, timeoutS, all)
+			mu.Lock()
+			skip := !o.Cover && fails[o.Func] >= maxFailPerFunc
+			mu.Unlock()
+			if skip {
+				o.Status, o.Solver = "skipped", "not attempted"
+				o.Model = fmt.Sprintf("not attempted: %d obligations of %s had already failed", maxFailPerFunc, o.Func)
+				return
+			}
+			mu.Lock()
+			budget := timeoutS
+			if fails[o.Func] > 0 && budget > 15 {
+				budget = 15 // the function has already failed an obligation: less patience for the rest
+			}
+			mu.Unlock()
+			dischargeOne(o, dir, budget, all)
+			if !o.Cover && o.Status != "unsat" {
+				mu.Lock()
+				fails[o.Func]++
+				mu.Unlock()
+			}
 		}()
 	}
 	wg.Wait()
